@@ -68,6 +68,8 @@ def cells(tier):
     out.append({"id": "register|numba", "group": "register", "what": "numba", "proc": "reg-numba"})
     for k in range(6 if tier == "quick" else 24):
         out.append({"id": f"threads|{k}", "group": "threads", "proc": "plain", "shard": k})
+    for k in range(2 if tier == "quick" else 8):
+        out.append({"id": f"threads|hooks|{k}", "group": "hooks", "proc": "plain", "shard": k})
     out.append({"id": "threads|cold", "group": "cold", "proc": "plain"})
     return out
 
@@ -86,7 +88,16 @@ KINDS = ("object", "np1", "np2", "flat", "jagged", "optrec", "record")
 
 @st.composite
 def _step(draw):
-    kind = draw(st.sampled_from(("op", "op", "op", "singular", "raise", "construct", "kernel_raise", "kernel_raise")))
+    kind = draw(st.sampled_from(("op", "op", "op", "singular", "raise", "construct", "kernel_raise", "kernel_raise", "operator", "operator")))
+    if kind == "operator":
+        # the operator spellings run through each backend's ufunc hook (__array_ufunc__ / Awkward behaviors), not through dispatch()
+        opcall = draw(st.sampled_from(sorted(c03.OPCALLS)))
+        name = c03.OPCALLS[opcall][0]
+        op = OPS[name]
+        da = draw(st.sampled_from(op.self_dims))
+        db = draw(st.sampled_from(op.other_dims(da)))
+        return {"kind": "operator", "op": name, "opcall": opcall, "da": da, "db": db, "elem": draw(opcheck.case_strategy(op, db, "f64", None)),
+                "h": draw(st.integers(0, 2**30)), "zero": draw(st.sampled_from((False, False, False, True)))}
     if kind == "kernel_raise":
         # the exception is raised INSIDE the dispatched computation (unbroadcastable shapes, mismatching list lengths,
         # overflowing Python floats, a non-numeric scalar argument), not by the argument checks before it
@@ -123,6 +134,9 @@ def strategy(cell, tier):
         # a pool of distinct generated calls, repeated to a few hundred (Hypothesis' entropy budget bounds the pool size)
         return st.fixed_dictionaries({"pool": st.lists(_step(), min_size=24, max_size=40),
                                       "repeat": st.integers(8, 12 if tier == "quick" else 40), "perm": st.integers(0, 2**30)})
+    if cell["group"] == "hooks":
+        return st.fixed_dictionaries({"v": gen.vec(("moderate",)), "w": gen.vec(("moderate",)), "s": gen.factor(),
+                                      "repeat": st.integers(4, 8), "perm": st.integers(0, 2**30)})
     return st.integers(0, 10**6).map(lambda i: {"nonce": i})
 
 
@@ -236,27 +250,32 @@ def run_step(step, registered=False):
     h = step["h"]
     if kind == "kernel_raise":
         return _kernel_raise(step)
-    if kind in ("op", "singular"):
+    if kind in ("op", "singular", "operator"):
         op = OPS[step["op"]]
         da, db = step["da"], step["db"]
         e = step["elem"]
         if kind == "singular":
             e = _singular_elem(e, step["sing"], da, db)
+        if kind == "operator" and step.get("zero") and "factor" in e.get("s", {}):
+            e = json.loads(json.dumps(e))
+            e["s"]["factor"] = 0.0 if step["opcall"] != "a/s" else float("inf")  # a / (1/inf) = a / 0.0
         elems = [e] * lattice.N
         ka = KINDS[h % len(KINDS)]
         SA = R.SYSTEMS[da]
-        sa = SA[(h >> 4) % len(SA)] if kind == "op" else opcheck.CART[da]
+        sa = SA[(h >> 4) % len(SA)] if kind != "singular" else opcheck.CART[da]
         cfg = {"op": op.name, "da": da, "db": db, "ka": ka, "sa": R.sysname(sa), "fa": "m" if op.momentum else "gm"[(h >> 8) % 2],
                "scal": "py", "extra": bool((h >> 9) % 2), "spa": "generic"}
         if db:
             SB = R.SYSTEMS[db]
-            cfg["sb"] = R.sysname(SB[(h >> 10) % len(SB)] if kind == "op" else opcheck.CART[db])
+            cfg["sb"] = R.sysname(SB[(h >> 10) % len(SB)] if kind != "singular" else opcheck.CART[db])
             cfg["fb"] = "gm"[(h >> 14) % 2]
             kb = (ka, "object", "record", "flat")[(h >> 15) % 4]
             if "axis" in op.tags and ka in ("object", "record") and kb in lattice.ARRAY_KINDS:
                 kb = "object"
             cfg["kb"] = kb
             cfg["spb"] = "generic"
+        if kind == "operator":
+            cfg["_call"] = c03.OPCALLS[step["opcall"]][1]
         o = lattice.evaluate(cfg, elems, want_ref=False)
         if o.skipped:
             return ("skip", o.skipped)
@@ -329,6 +348,8 @@ def check_case(cell, case, ctx):
         _register(cell, case, ctx)
     elif g == "threads":
         _threads(cell, case, ctx)
+    elif g == "hooks":
+        _hooks(cell, case, ctx)
     else:
         _cold(cell, case, ctx)
     ctx.evaluations -= 1
@@ -527,10 +548,16 @@ def _threads(cell, case, ctx):
                     errs[t] = ("exception", repr(e))
 
             ths = [threading.Thread(target=work, args=(t,)) for t in range(nthreads)]
+            g0 = gsnap()
             for th in ths:
                 th.start()
             for th in ths:
                 th.join()
+            dstate = gdiff(g0, gsnap())
+            if dstate is not None:
+                ctx.fail("thread_state", f"{len(steps)} calls on {nthreads} threads (partition {rep}) changed process-wide state: {dstate}",
+                         op="threads", variant="state", backend="threads")
+                return
             for t in range(nthreads):
                 if errs[t] is not None:
                     if errs[t][0] == "geterr":
@@ -547,6 +574,95 @@ def _threads(cell, case, ctx):
                                  f"{str(seq[i])[:200]} sequentially (partition {rep})", op=str(name), variant="threads", backend="threads")
                         return
             ctx.nontrivial(key=[cell["id"], rep, case["perm"]], sample={"calls": len(steps), "threads": nthreads, "partition": rep})
+    finally:
+        sys.setswitchinterval(old)
+        wctx.__exit__(None, None, None)
+
+
+def _hook_calls(case):
+    """every operator / ufunc / reduction entry point of every backend on small fixed-size operands"""
+    a, b, f = case["v"]["c"], case["w"]["c"], case["s"]
+    mk = {
+        "object": lambda c: vector.obj(x=c[0], y=c[1], z=c[2], t=c[3]),
+        "numpy": lambda c: vector.array({"x": [c[0], 1.0], "y": [c[1], 2.0], "z": [c[2], 3.0], "t": [c[3], 9.0]}),
+        "numpy-tau": lambda c: vector.array({"rho": [abs(c[0]), 1.0], "phi": [0.3, 2.0], "eta": [0.1, -1.0], "tau": [abs(c[3]), 2.0]}),
+        "awkward": lambda c: vector.zip({"x": [[c[0]], [], [1.0]], "y": [[c[1]], [], [2.0]], "z": [[c[2]], [], [3.0]], "t": [[c[3]], [], [9.0]]}),
+    }
+    calls = []
+    for be, make in mk.items():
+        A, B = make(a), make(b)
+        calls += [
+            (be, "a+b", lambda A=A, B=B: A + B), (be, "a-b", lambda A=A, B=B: A - B), (be, "a*s", lambda A=A: A * f),
+            (be, "s*a", lambda A=A: f * A), (be, "a/s", lambda A=A: A / f), (be, "a/0", lambda A=A: A / 0.0), (be, "-a", lambda A=A: -A),
+            (be, "+a", lambda A=A: +A), (be, "abs", lambda A=A: abs(A)), (be, "a**2", lambda A=A: A**2), (be, "a**3", lambda A=A: A**3),
+            (be, "a==b", lambda A=A, B=B: A == B), (be, "a!=b", lambda A=A, B=B: A != B),
+            (be, "sqrt", lambda A=A: numpy.sqrt(A)), (be, "isclose", lambda A=A, B=B: A.isclose(B)),
+        ]
+        if be.startswith("numpy"):
+            calls += [(be, "sum", lambda A=A: numpy.sum(A)), (be, "count_nonzero", lambda A=A: numpy.count_nonzero(A)),
+                      (be, "numpy.isclose", lambda A=A, B=B: numpy.isclose(A, B)), (be, "repr", lambda A=A: len(repr(A))),
+                      (be, "a@b", lambda A=A, B=B: A @ B)]
+        if be == "awkward":
+            calls += [(be, "ak.sum", lambda A=A: ak.sum(A, axis=-1)), (be, "ak.count_nonzero", lambda A=A: ak.count_nonzero(A, axis=-1))]
+        if be == "object":
+            calls += [(be, "a@b", lambda A=A, B=B: A @ B), (be, "repr", lambda A=A: len(repr(A)))]
+    return calls
+
+
+def _hooks(cell, case, ctx):
+    calls = _hook_calls(case)
+
+    def run(i):
+        be, name, fcall = calls[i]
+        try:
+            r = fcall()
+        except Exception as ex:  # noqa: BLE001
+            return ("exc", type(ex).__name__)
+        try:
+            return ("ok", c14._bits(r))
+        except Exception:  # noqa: BLE001
+            return ("ok", repr(r))
+
+    nthreads = 16
+    old = sys.getswitchinterval()
+    wctx = warnings.catch_warnings()
+    wctx.__enter__()
+    warnings.simplefilter("ignore")
+    try:
+        seq = [run(i) for i in range(len(calls))]
+        sys.setswitchinterval(1e-6)
+        results = [None] * nthreads
+        barrier = threading.Barrier(nthreads)
+        g0 = gsnap()
+
+        def work(t):
+            barrier.wait()
+            out = []
+            for rep in range(case["repeat"]):
+                for k in range(len(calls)):
+                    i = (k * ((case["perm"] + t) % 7 + 1) + t) % len(calls)
+                    out.append((i, run(i)))
+            results[t] = out
+
+        ths = [threading.Thread(target=work, args=(t,)) for t in range(nthreads)]
+        for th in ths:
+            th.start()
+        for th in ths:
+            th.join()
+        dstate = gdiff(g0, gsnap())
+        sys.setswitchinterval(old)
+        ctx.evaluation(nthreads * case["repeat"] * len(calls))
+        if dstate is not None:
+            ctx.fail("thread_state", f"{len(calls)} operator/ufunc entry points called {case['repeat']} times on {nthreads} threads changed "
+                     f"process-wide state: {dstate}", op="threads", variant="state", backend="threads")
+            return
+        for t in range(nthreads):
+            for i, r in results[t] or []:
+                if repr(r) != repr(seq[i]):
+                    ctx.fail("thread_result", f"{calls[i][0]} {calls[i][1]} gave {str(r)[:160]} on thread {t} but {str(seq[i])[:160]} "
+                             f"sequentially", op=calls[i][1], variant="threads", backend=calls[i][0])
+                    return
+        ctx.nontrivial(key=[cell["id"], case["perm"]], sample={"entry_points": len(calls), "threads": nthreads, "repeat": case["repeat"]})
     finally:
         sys.setswitchinterval(old)
         wctx.__exit__(None, None, None)
